@@ -5,8 +5,8 @@ import BitstringModel.Model.C18
 import BitstringModel.Proofs.C18
 import BitstringModel.Props.C18
 
-namespace BM.C18
-open BM
+namespace BM.C18.Swap
+open BM BM.C18
 
 theorem reversebytes_inrange (pre seg post : Bits) :
     reversebytes (pre ++ seg ++ post) pre.length (pre.length + seg.length) = pre ++ bytesRev seg ++ post := by
@@ -261,4 +261,10 @@ theorem byteswap_twice' (l : Bits) (f : Fmt) (s e : Option Int) (rep : Bool) (a 
     rw [← hl', swapRepeat_swapRepeat _ _ _ rfl _ hmid, ← hl] at key
     exact key
 
-end BM.C18
+
+theorem int2bitstore_length (i : Int) (len : Nat) (signed : Bool) (x : Bits)
+    (h : int2bitstore i len signed = .ok x) : x.length = len := by
+  unfold int2bitstore at h
+  split at h <;> split at h <;> cases h <;> simp [intToBits]
+
+end BM.C18.Swap
